@@ -721,4 +721,45 @@ def apply (s : State) : Op → State
 
 def run (ops : List Op) : State := ops.foldl apply {}
 
+/-- `n` blocks pass in which nothing is submitted: the consensus end blocker runs `n` times.  (Its other
+    parts do not touch what this model holds: attestation needs evidence, pruning needs a message older
+    than 300 blocks, and `ReassignOrphanedMessages` is not called by it — see `reassignDead`.) -/
+def idleBlocks (s : State) (n : Nat) : State := (List.replicate n Op.endBlock).foldl apply s
+
+/-! ### the keyed store of batch confirmations (`SetBatchConfirm` / `GetBatchConfirmByNonceAndTokenContract` /
+`DeleteBatchConfirms`)
+
+`Batch.confirms` above is the list of confirmations found under a batch.  The store itself is keyed:
+`GetBatchConfirmKey(contract, nonce, orchestrator)`.  A stored `MsgConfirmBatch` names an `Orchestrator`
+and carries the `Metadata.Creator` of the transaction that delivered it; `ConfirmBatch` never compares
+the two (the eth signature authenticates a confirmation), so a confirmation may be delivered by any
+account.  Write, duplicate test and delete all derive the key from the ORCHESTRATOR. -/
+
+structure ConfRec where
+  /-- `Orchestrator` (as validator id) -/
+  val : Nat
+  /-- `Metadata.Creator` -/
+  creator : Nat
+  /-- `EthSigner` string -/
+  addr : Nat
+deriving DecidableEq, Repr
+
+/-- key `(nonce, account)` ↦ record -/
+abbrev ConfStore := List ((Nat × Nat) × ConfRec)
+
+/-- `SetBatchConfirm`: stored under the key of the record's orchestrator -/
+def setBatchConfirm (st : ConfStore) (nonce : Nat) (r : ConfRec) : ConfStore :=
+  st.filter (fun e => e.1 != (nonce, r.val)) ++ [((nonce, r.val), r)]
+
+/-- `GetBatchConfirmByNonceAndTokenContract`: prefix iteration over one batch -/
+def confirmsOf (st : ConfStore) (nonce : Nat) : List ConfRec := (st.filter (fun e => e.1.1 == nonce)).map (·.2)
+
+/-- `DeleteBatchConfirms`: every record found under the batch is deleted under the key derived from it
+    by `keyOf` -/
+def deleteBatchConfirmsBy (keyOf : ConfRec → Nat) (st : ConfStore) (nonce : Nat) : ConfStore :=
+  (confirmsOf st nonce).foldl (fun acc r => acc.filter (fun e => e.1 != (nonce, keyOf r))) st
+
+/-- the code that exists: the key is derived from the orchestrator, like the write -/
+def deleteBatchConfirms (st : ConfStore) (nonce : Nat) : ConfStore := deleteBatchConfirmsBy (·.val) st nonce
+
 end Paloma.Queue
